@@ -7,7 +7,9 @@
     qp.cond on a mid-circuit measurement is modelled as the documentation states it: both branches are recorded in a
     context of their own and every recorded operator is queued as Conditional(m, op) / Conditional(~m, op), in order.
 (C) REPLAY: TLC enumerates every program of the nested grammar up to the bound plus exhaustive families of loop bounds
-    (all lo, hi, step incl. negative steps and empty ranges, carried values), while parameters and predicate tuples, plus
+    (all lo, hi, step incl. negative steps and empty ranges, carried values), while parameters and predicate tuples (Python
+    bools and NUMBER-valued predicates - ints, floats, numpy scalars, zero / negative / larger-later - whose truth value
+    QProg.tla takes from Python's truth-value testing: exactly the zeros are false, so if/elif picks the FIRST non-zero), plus
     seeded random deeper programs; the driver builds each program out of the real qp.for_loop / qp.while_loop / qp.cond
     (call and decorator forms, 1/2/3-argument for_loop) and compares the queues after every action, the returned loop
     values, all object terms and the final tape.  The recorded queue events are validated by Trace_Queuing.tla.
@@ -33,6 +35,7 @@ def families(B, S):
     G, R1 = N("G"), N("R", [1])
     do = lambda e: N("do", [], [[e]])
     body = [do(G)]
+    U = lambda e: N("U", [], [[e]])
     out = []
     # every loop-bound triple in the box, with and without a carried value
     for lo, hi, st, carry in itertools.product(range(-B, B + 1), range(-B, B + 1), [s for s in range(-S, S + 1) if s], (0, 1)):
@@ -49,8 +52,30 @@ def families(B, S):
         for ps in itertools.product((0, 1, 2, 3), repeat=n):
             for el in (0, 1):
                 out.append([N("for", [-1, 3, 1, 0], [[N("cond", ps, [[do(G)] for _ in range(n + el)])]])])
+    # NUMBER-valued predicates (what `if n % 3: ... elif count: ...` tests): Python ints / floats / numpy scalars, zero and
+    # non-zero, negative, a later predicate larger than the first truthy one; constants at top level ...
+    consts = (0, 1) + (6, 7, 8, 9, 10, 11, 12)
+    for ps in itertools.product(consts, repeat=2):
+        if max(ps) >= 4:
+            for el in (0, 1):
+                out.append([N("cond", ps, [[do(G)] for _ in range(2 + el)])])
+    for ps in itertools.product((1, 8, 6, 7, 9, 11), repeat=3):
+        if max(ps) >= 4:
+            out.append([N("cond", ps, [[do(G)] for _ in range(3 + (sum(ps) % 2))])])
+    # ... and computed from the loop index (i % 3, i, 2 - i, i / 2) over negative, zero and positive indices
+    for ps in itertools.product((2, 3, 4, 5, 13, 14), repeat=2):
+        if max(ps) >= 4:
+            for el in (0, 1):
+                out.append([N("for", [-2, 4, 1, 0], [[N("cond", ps, [[do(G)] for _ in range(2 + el)])]])])
+    for ps in itertools.product((4, 5, 13, 7), repeat=3):
+        out.append([N("for", [3, -3, -1, 0], [[N("cond", ps, [[do(G)] for _ in range(4)])]])])
+    out += [
+        [N("while", [-1, 3, 1], [[N("cond", [4, 13, 5], [[do(G)], [do(U(G))], [N("raise")]])]])],
+        [N("try", [], [[N("for", [0, 4, 1, 1], [[N("cond", [8, 4, 7], [[do(G)], [N("raise")], [do(G)], [do(G)]])]])]]), do(G)],
+        [N("mcond", [], [[N("cond", [11, 9, 12], [[do(G)], [do(U(G))], [do(G)]])], [N("cond", [10, 8], [[do(G)], [do(G)]])]])],
+        [N("stop", [], [[N("cond", [6, 7], [[do(G)], [do(G)]])]]), N("ctx", [], [[N("cond", [8, 10, 12], [[do(G)], [do(G)], [do(U(G))]])]])],
+    ]
     # nested loops, a loop in a branch, exceptions leaving loops and branches, references across iterations
-    U = lambda e: N("U", [], [[e]])
     out += [
         [N("for", [0, 2, 1, 0], [[N("for", [2, 0, -1, 1], [[do(G), do(U(R1))]])]])],
         [N("for", [3, -2, -2, 1], [[N("while", [0, 2, 1], [[do(G)]]), do(U(R1))]])],
@@ -129,12 +154,19 @@ def run(tier, seed):
     nrand, depth, budget = (1500, 3, 9) if quick else (40000, 4, 14)
     extras = families(B, S)
     nfam = len(extras)
+    prng = random.Random(seed * 7919 + 43)           # predicates of the random programs: half of the cond nodes number-valued
     for _ in range(nrand):
-        extras.append(qprog.rand_prog(rng, RANDOM_KINDS, depth, rng.randint(4, budget)))
+        extras.append(qprog.widen_preds(qprog.rand_prog(rng, RANDOM_KINDS, depth, rng.randint(4, budget)), prng))
+    nnum = ndis = 0
+    for pr in extras:
+        a, b = qprog.nonbool_cond_stats(pr)
+        nnum, ndis = nnum + a, ndis + b
+    if nnum < 300 or ndis < 100:
+        raise lib.MachineryError(f"vacuous: only {nnum} cond nodes with number-valued predicates, {ndis} separating first-truthy from largest")
     kinds = "{" + ",".join(f'"{k}"' for k in KINDS) + "}"
     cov, viol, feats = qprog.drive(
         "C43", tier, seed,
-        defs={"Kinds": kinds, "ForSpecs": "{<<0,2,1,0>>, <<1,-1,-1,1>>}", "WhileSpecs": "{<<0,2,1>>}", "CondPreds": "{<<2>>, <<0,3>>}"},
+        defs={"Kinds": kinds, "ForSpecs": "{<<0,2,1,0>>, <<1,-1,-1,1>>}", "WhileSpecs": "{<<0,2,1>>}", "CondPreds": "{<<2>>, <<0,3>>, <<4,7>>}"},
         constants={"MaxSize": 3 if quick else 4, "MaxDepth": 2, "NFlav": 2 if quick else 4, "RangeB": B + 1},
         extras=extras, trace_limit=800 if quick else 5000,
         what="for_loop, while_loop, cond, cond on a measurement, raised exception, nested recording context, operand consumed by a wrapper")
@@ -163,11 +195,15 @@ def run(tier, seed):
     cov["negative_controls_rejected"] += 1
     cov["bounds"] = {"exhaustive_max_nodes": 3 if quick else 4, "nesting": 2, "flavours": 2 if quick else 4, "loop_bound_box": B, "max_abs_step": S,
                      "family_programs": nfam, "random_programs": nrand, "random_depth": depth}
+    cov["cond_nodes_with_number_valued_predicates"] = nnum
+    cov["cond_nodes_where_first_truthy_is_not_the_largest_predicate"] = ndis
     cov["deferred_measurement_circuits"] = nd
     cov["deferred_measurement_max_abs_err"] = worst
     cov["exhaustive"] = True
     return CheckResult(coverage=cov, violations=viol, assumptions=[
-        "predicates are Python booleans computed from the loop index; loop bounds are Python ints (tape mode, no capture, no qjit)",
+        "predicates are Python booleans or numbers (int / float / numpy scalar, incl. zero, negative, non-integral) that are constants or "
+        "computed from the loop index; truth value = Python truth-value testing (exactly the zeros are false); loop bounds are Python ints "
+        "(tape mode, no capture, no qjit)",
         "cond on a measurement: recorded structure decided by TLC; the equivalence with deferred measurement is compared numerically "
         "(default.qubit tree-traversal vs an independent evaluation of the controlled circuit) on generated 3-wire circuits",
         "qp.apply of a wrapper whose operand is in the active queue: both outcomes accepted (see C41)"])
